@@ -33,10 +33,11 @@ EXTENDS GridTopology, Rat, SequencesExt, FiniteSetsExt
 NZ(G, s) == {f \in FaceIx(G) : s[f + 1] # 0}
 
 UpwindFamily(G, s, bc, n) ==
+  LET B == BoundaryFaces(G) IN
   /\ WellFormed(G) /\ Len(s) = G.nf /\ Len(bc) = G.nf /\ n >= 1
   /\ \A f \in FaceIx(G) : /\ s[f + 1] \in {-1, 0, 1}
                           /\ bc[f + 1] \in {"dir", "neu", "int"}
-                          /\ (bc[f + 1] = "int") <=> (f \notin BoundaryFaces(G))
+                          /\ (bc[f + 1] = "int") <=> (f \notin B)
 
 (* ------------------------------ reference ------------------------------ *)
 \* flux with sign +1 leaves the cell that sees the face with +1, flux with sign -1 the one that sees it with -1
@@ -52,7 +53,7 @@ BoundNeuRef(G, s, bc, n) ==
   {<<f * n + k, f * n + k>> : f \in {g \in NZ(G, s) : bc[g + 1] = "neu"}, k \in 0..(n - 1)}
 
 \* rows of a matrix (set of entries) that belong to faces with nonzero flux
-OnNZ(M, G, s, n) == {e \in M : (e[1] \div n) \in NZ(G, s)}
+OnNZ(M, G, s, n) == LET nz == NZ(G, s) IN {e \in M : (e[1] \div n) \in nz}
 
 (* --------------------- transcription of discretize --------------------- *)
 ImplUpwind(G, s, bc, n) ==
@@ -120,4 +121,10 @@ ARef(G, flux) ==
 
 TransportLaw(G, flux, V, c, dt) ==
   (DivFree(G, flux) /\ NoFlow(G, flux) /\ CFL(G, flux, V, dt)) => ValidStep(c, Step(ARef(G, flux), c, V, dt), V)
+\* the same for several initial states and steps (the matrix is built once)
+TransportLawAll(G, flux, V, cs, dts) ==
+  (DivFree(G, flux) /\ NoFlow(G, flux)) =>
+    LET A == ARef(G, flux) IN
+      \A i \in 1..Len(cs) : \A j \in 1..Len(dts) :
+        CFL(G, flux, V, dts[j]) => ValidStep(cs[i], Step(A, cs[i], V, dts[j]), V)
 =============================================================================
